@@ -75,14 +75,14 @@ func pCases(prop, tier string) []Case {
 }
 
 type rie struct {
-	cmd      *exec.Cmd
-	api      string
-	front    string
-	dir      string
-	logBase  string
-	stderr   string
-	exited   chan struct{}
-	waitErr  error
+	cmd     *exec.Cmd
+	api     string
+	front   string
+	dir     string
+	logBase string
+	stderr  string
+	exited  chan struct{}
+	waitErr error
 }
 
 func freePort() int {
